@@ -848,7 +848,7 @@ class Executor:
             k = p[0]
             if k == "deref":
                 if not isinstance(v, RefV):
-                    if isinstance(v, (SliceV, StrV, PtrV)):
+                    if isinstance(v, (SliceV, StrV, PtrV, Opaque)):
                         continue
                     raise Unsupported("deref of non-reference %r" % (v,))
                 v = self.read_ref(st, v)
@@ -1315,7 +1315,7 @@ class Executor:
             p = proj[i]
             if p[0] == "deref":
                 tgt = self.read_ref(st, cur)
-                if isinstance(tgt, (SliceV, StrV, PtrV)):
+                if isinstance(tgt, (SliceV, StrV, PtrV, Opaque)):
                     return tgt
                 if not isinstance(tgt, RefV):
                     raise Unsupported("re-borrow through non-ref %r" % (tgt,))
